@@ -37,6 +37,7 @@ type c07Scenario struct {
 	Dawdle          int        `json:"handler_dawdle"`
 	AcrossReconnect bool       `json:"request_pending_across_reconnect,omitempty"`
 	FailingWrite    bool       `json:"last_request_write_fails_while_its_answer_arrives,omitempty"`
+	UnsolicitedWait bool       `json:"handler_of_an_unsolicited_result_waits_for_its_own_request,omitempty"` // client only: routes run on their own goroutines, so a handler may wait for an answer
 	HandlerIQ       int        `json:"handler_sends_iq"` // number of server requests whose handler issues a SendIQ of its own
 }
 
@@ -78,6 +79,7 @@ func runC07(e *Engine, g G, o RunOpt) RunInfo {
 	sc.Dawdle = g.N("dawdle", 3)
 	sc.AcrossReconnect = !sc.Component && g.Pct("across-reconnect", 15)
 	sc.FailingWrite = !sc.AcrossReconnect && g.Pct("failing-write", 12)
+	sc.UnsolicitedWait = !sc.Component && g.Pct("unsolicited-wait", 15)
 	if g.Pct("handler-iq", 30) {
 		sc.HandlerIQ = g.Range("handler-iq-n", 1, 3)
 	}
@@ -138,6 +140,35 @@ func runC07(e *Engine, g G, o RunOpt) RunInfo {
 	var hq []string // handler-issued requests waiting for their reader
 	onPacket := func(snd xmpp.Sender, p stanza.Packet) {
 		iq, ok := p.(*stanza.IQ)
+		if ok && iq.Id == "unsolicited-1" && sc.UnsolicitedWait {
+			// a result nobody asked for (late, duplicate, or the server's own idea): its handler asks the
+			// server something and waits for the answer - fine on a client, whose routes do not run on
+			// the receive loop
+			req, _ := stanza.NewIQ(stanza.Attrs{Type: stanza.IQTypeGet, Id: "hw-1", To: SimDomain})
+			req.Payload = &stanza.Version{}
+			ctx, cancel := context.WithTimeout(context.Background(), 3*time.Second+41*time.Microsecond)
+			defer cancel()
+			reqByIDDyn["hw-1"] = c07Req{ID: "hw-1", Ctx: "timeout", Read: "now", Answer: "once"}
+			ctxEnd["hw-1"] = e.Now() + 3*time.Second + 41*time.Microsecond
+			ch, err := snd.SendIQ(ctx, req)
+			callErr["hw-1"] = err
+			if err != nil || ch == nil {
+				return
+			}
+			chans["hw-1"] = ch
+			select {
+			case v, ok := <-ch:
+				e.Yield("handler.wait.read")
+				if ok {
+					gots["hw-1"] = &c07Got{req: "hw-1", marker: v.From, id: v.Id, at: e.Now(), closed: true}
+					e.Logf("cb.handler", "handler of the unsolicited result got its answer from=%s", v.From)
+				}
+			case <-ctx.Done():
+				e.Yield("handler.wait.timeout")
+				e.Logf("cb.handler", "handler of the unsolicited result: no answer within 3 s")
+			}
+			return
+		}
 		if !ok || !strings.HasPrefix(iq.Id, "srvreq-") {
 			return
 		}
@@ -191,7 +222,7 @@ func runC07(e *Engine, g G, o RunOpt) RunInfo {
 				}
 				written[id] = e.Now()
 				r, ok := plan[id]
-				if !ok && strings.HasPrefix(id, "h-") {
+				if !ok && (strings.HasPrefix(id, "h-") || id == "hw-1") {
 					r, ok = c07Req{ID: id, Answer: "once"}, true
 				}
 				if !ok {
@@ -485,6 +516,11 @@ func runC07(e *Engine, g G, o RunOpt) RunInfo {
 		}
 		e.WaitUntilFor("tasks", 5*time.Minute, func() bool { return tasksDone == sc.Tasks })
 		e.Sleep(5 * time.Second)
+		if sc.UnsolicitedWait && !conn.Dead {
+			conn.Send(fmt.Sprintf("<iq id='unsolicited-1' type='result' from='%s'/>", SimDomain))
+			e.Sleep(6 * time.Second)
+			e.Probe("c07.handler_of_unsolicited_result_waits")
+		}
 		if sc.AcrossReconnect && cw != nil {
 			// a request is still pending when the connection is lost; the application resumes; the
 			// answer arrives on the new connection: it is still that request's answer
